@@ -1,10 +1,10 @@
 package props
 
 import (
-	"go/types"
 	"fmt"
 	"go/ast"
 	"go/token"
+	"go/types"
 	"sort"
 	"strings"
 
